@@ -299,9 +299,12 @@ def mal_cases(draw):
             v = "sign"
         jwk[m] = v
         c["member"], c["value_type"] = m, jsonv.json_type(v)
+        # optional members may also arrive through the `parameters` argument of import_key: same rules
+        c["via_params"] = m in ("kid", "use", "key_ops", "alg", "x5t", "x5c", "x5u") and draw(st.booleans())
     elif mut == "use-keyops":
         use, ops = draw(st.sampled_from([("sig", ["encrypt"]), ("enc", ["sign"]), ("sig", ["sign", "wrapKey"]), ("enc", ["verify", "decrypt"]), ("sig", ["deriveBits"])]))
         jwk["use"], jwk["key_ops"] = use, ops
+        c["via_params"] = draw(st.sampled_from([False, "key_ops", "use", "both"]))
     elif mut in ("bad-base64", "len1mod4", "padding"):
         cands = [m for m in ("k", "n", "e", "d", "p", "q", "dp", "dq", "qi", "x", "y") if m in jwk and isinstance(jwk[m], str) and len(jwk[m]) >= 1]
         if not cands:
@@ -383,8 +386,16 @@ def run_mal(c) -> dict:
         pass
     with warnings.catch_warnings():
         warnings.simplefilter("ignore")
+        params = None
+        vp = c.get("via_params")
+        if vp:
+            names = [m] if c["mut"] == "retype" else {"key_ops": ["key_ops"], "use": ["use"], "both": ["use", "key_ops"]}[vp]
+            params = {n: jwk.pop(n) for n in names if n in jwk}
         try:
-            k = JWKRegistry.import_key(jwk) if via == "registry" else cls.import_key(jwk)
+            if params is not None:
+                k = JWKRegistry.import_key(jwk, parameters=params) if via == "registry" else cls.import_key(jwk, params)
+            else:
+                k = JWKRegistry.import_key(jwk) if via == "registry" else cls.import_key(jwk)
         except Exception:
             return {}
     if c["mut"] == "padding":
@@ -396,7 +407,7 @@ def run_mal(c) -> dict:
             return {"_dont_care": "mutated coordinate still forms a valid key"}
         except rk.JWKError:
             pass
-    desc = f"{c['mut']} {m or ''}: JWK {json.dumps(jwk)[:300]} was imported"
+    desc = f"{c['mut']} {m or ''}: JWK {json.dumps(jwk)[:300]}" + (f" with parameters {params!r}" if params else "") + " was imported"
     key = f"C11:malformed-jwk-accepted:{c['mut']}:{c['kty']}:{m if c['mut'] in ('retype', 'delete', 'coordinate') else ''}"
     return {key: desc}
 
